@@ -264,6 +264,16 @@ func CompactTypes(module *Module) {
 		}
 	}
 
+	// A removed concrete leaf type may still be the recorded type of an
+	// expression (e.g. the annotation of `let v: vec3<u32> = vec3<u32>(4u)`):
+	// keep that type by value, or the expression is left without any type.
+	for fi := range module.Functions {
+		keepRemovedLeafTypes(&module.Functions[fi], module.Types, keep)
+	}
+	for ei := range module.EntryPoints {
+		keepRemovedLeafTypes(&module.EntryPoints[ei].Function, module.Types, keep)
+	}
+
 	// Step 4: Remap all type handles throughout the module
 	module.Types = newTypes
 
@@ -319,6 +329,26 @@ func CompactTypes(module *Module) {
 			}
 		}
 		module.TypeUseOrder = filtered
+	}
+}
+
+// keepRemovedLeafTypes records by value the type of every expression whose
+// recorded type handle names a concrete scalar, vector or matrix type that
+// compaction is about to remove.
+func keepRemovedLeafTypes(f *Function, types []Type, keep []bool) {
+	for ti := range f.ExpressionTypes {
+		tr := &f.ExpressionTypes[ti]
+		if tr.Handle == nil || tr.Value != nil || int(*tr.Handle) >= len(types) || keep[*tr.Handle] {
+			continue
+		}
+		inner := types[*tr.Handle].Inner
+		if IsAbstractType(inner, types) {
+			continue
+		}
+		switch inner.(type) {
+		case ScalarType, VectorType, MatrixType:
+			tr.Value = inner
+		}
 	}
 }
 
